@@ -1,22 +1,8 @@
 (* Evaluation of the Rcb / Rib correspondence cases for C04: model vs
    implementation, and the certified checker [check_balance] on every
-   bisection of the implementation's partition. *)
+   bisection of the implementation's partition (Run/RunC03.v, eval_rcb). *)
 From Coupe Require Import Lib.Prelude Lib.SFloat Lib.Report Model.Rcb Run.RunC03.
-From Coq Require Import Floats.SpecFloat.
 Open Scope Z_scope.
 
-Definition eval04 (c : caseR) : verdict :=
-  (* model = implementation, and the decidable premise of the C04 theorem
-     (root box encloses the binary32 coordinates) holds inside the contract *)
-  let corr := res_matches (model_of c) (r_impl c) && premise_ok c in
-  let prop :=
-    if in_contract c then
-      match r_impl c with
-      | IOk p => check_balance32 (r_D c) (r_k c) (f64_of_bits (r_tol c)) (pts_of c) (r_ws c) p
-      | _ => false
-      end
-    else if wellformed c then true
-    else malformed_ok c in
-  {| corr_ok := corr; prop_ok := prop; cls := cls_of c |}.
-
+Definition eval04 := eval_rcb true.
 Definition run04 (cs : list caseR) := report (map eval04 cs).
